@@ -1,38 +1,6 @@
-/* Line-protocol driver over the real skeleton functions (L1 operations).
- * One output line per input line; handlers live in ops_*.c. */
+/* Line-protocol driver over the real skeleton functions used by C16. */
 #include "hutil.h"
-
-#define DECL(n) int n(int argc, char **argv, FILE *out);
-#include "prim_ops.list"
-#undef DECL
-static op_handler_f handlers[] = {
-#define DECL(n) n,
-#include "prim_ops.list"
-#undef DECL
-    0
-};
-
-int main(void) {
-    char *line = NULL;
-    size_t cap = 0;
-    ssize_t n;
-    static char obuf[1 << 16];
-    setvbuf(stdout, obuf, _IOFBF, sizeof(obuf));
-    while((n = getline(&line, &cap, stdin)) > 0) {
-        char *argv[64];
-        int argc = 0;
-        char *save = 0;
-        for(char *t = strtok_r(line, " \r\n", &save); t && argc < 64; t = strtok_r(0, " \r\n", &save))
-            argv[argc++] = t;
-        int handled = 0;
-        if(argc > 0) {
-            for(int i = 0; handlers[i]; i++) {
-                if(handlers[i](argc, argv, stdout)) { handled = 1; break; }
-            }
-        }
-        if(!handled) fputs("bad-op", stdout);
-        fputc('\n', stdout);
-    }
-    free(line);
-    return 0;
-}
+int ops_integer(int argc, char **argv, FILE *out);
+int ops_real(int argc, char **argv, FILE *out);
+static op_handler_f handlers[] = { ops_integer, ops_real, 0 };
+#include "driver_main.h"
